@@ -1,5 +1,6 @@
 """Imports a harness module concretely, runs its conformance suite, prints its cell table."""
 import dataclasses
+import os
 import importlib
 import json
 import sys
@@ -24,7 +25,11 @@ def main(modname, prop, tier):
         import signal
 
         def _alarm(*a):
-            raise TimeoutError('conformance run exceeded 120 s (busy loop in the code under analysis?)')
+            # raising here is not enough: catch-alls in the code under analysis may swallow it
+            desc['conformance_error'] = 'conformance run exceeded 120 s (busy or endless loop in the code under analysis?)'
+            sys.stdout.write('##VFW-DESC ' + json.dumps(desc) + '\n')
+            sys.stdout.flush()
+            os._exit(0)
         signal.signal(signal.SIGALRM, _alarm)
         signal.alarm(120)
         try:
